@@ -37,6 +37,12 @@ CHECKS = {
  "C10": ("exploration", "model-based testing: expected-request model vs. generated builder programs (proptest)",
          "An expected-request model written from the property text is compared with the request produced by every entry point (builders, struct constructors, raw constructors) under generated call sequences and arguments, in memory and through the reference decoder.",
          "charset/natural-language values are only required to be present with the right syntax.", "DESIGN.md 3/C10"),
+ "C11": ("exploration", "generated client/server exchanges against a hand-written loopback HTTP/1.1 server (proptest) + exhaustive status and cut-point sweeps + concurrent senders",
+         "The harness owns the server: it records exactly what arrives (method, target, Host, headers, de-framed body) and answers per script (framing, write fragmentation, cut, stall). Generated exchanges for both clients; every 4xx/5xx status; a cut at every byte of header+attributes under each framing with FIN and RST; stalled server vs timeout; N concurrent sends through one client.",
+         "TCP may coalesce write fragments; the timeout sub-check uses wall-clock with a x4 margin; each send() builds a fresh HTTP client (library design).", "DESIGN.md 3/C11"),
+ "C12": ("exploration", "complete enumeration of the finite TLS configuration matrix (240 cells) against a policy model, real TLS connections to a loopback openssl server, both TLS backends (two binaries)",
+         "Finite matrix enumerated completely (exhaustive: true) with committed certificate fixtures (3 CAs, 5 leaves): must-reject cells must return Err with 0 application bytes seen by the server after the handshake; must-accept cells must return the scripted response.",
+         "System trust store as installed; fixtures never chain to it. flag=true with a bad certificate is recorded, not asserted.", "DESIGN.md 3/C12"),
  "C13": ("exploration", "property-based component algebra + taint markers over generated URIs (proptest)",
          "URIs are built from components with marker tokens in user, password and query; an own splitter checks scheme/host/port/path, absence of user-info/query/markers, idempotence, for the helper and 11 request constructors (attribute and encoded bytes).",
          "http::Uri's own parsing decides which strings are valid targets.", "DESIGN.md 3/C13"),
@@ -55,14 +61,14 @@ CHECKS = {
  "C20": ("exploration", "property-based serde_json round trip over generated model messages (separate binary, ipp built with feature serde)",
          "Generated messages of C01's domain (utc_dir widened to any char) are serialised and deserialised; content must be identical without identifying one-element sets, re-serialisation must give the same JSON document, payload must be empty; bare IppAttributes and IppValue too.",
          "JSON is the carrier format.", "DESIGN.md 3/C20"),
+ "C18": ("exploration", "generated command lines for the real ipputil binary x scripted printer (proptest), transcript model as oracle",
+         "The real binary built from /repo is run against a scripted loopback printer; the oracle is a transcript model (which operations, in which order), the document bytes, the typed options (own classifier), headers and the exit status.",
+         "Only printer states for which the readiness truth table is defined are scripted.", "DESIGN.md 3/C18"),
  "C19": ("exploration", "model-based testing of add-histories (ordered list-of-groups model, invariant after every step) + traversal oracle (proptest)",
          "Histories of up to 39 adds from empty / constructor / parser-produced starts; the model is compared after every step; traversal order and termination for generated values.",
          "Four group kinds.", "DESIGN.md 3/C19"),
 }
 NOT_YET = {
- "C11": "check not built yet (loopback HTTP server harness in progress)",
- "C12": "check not built yet (TLS matrix in progress)",
- "C18": "check not built yet (ipputil end-to-end harness in progress)",
 }
 extra = json.load(open(os.path.join(ROOT, "tools", "manifest_extra.json"))) if os.path.exists(os.path.join(ROOT, "tools", "manifest_extra.json")) else {}
 CHECKS.update({k: tuple(v) for k, v in extra.get("checks", {}).items()})
